@@ -553,17 +553,15 @@ func substExpr(e Expr, m map[string]Expr) Expr {
 // splitConj splits an expression into top-level conjuncts, looking through non-recursive spec functions
 // whose arguments are plain identifiers/field paths (so substitution is capture-free).
 func splitConjPkg(e Expr, cs *Contracts, pkg string) []Expr {
-	curSplitPkg = pkg
-	return splitConj(e, cs, 0)
+	return splitConj(e, cs, 0, pkg)
 }
 
-var curSplitPkg string
-
-func splitConj(e Expr, cs *Contracts, depth int) []Expr {
+// (the package is a parameter, not package-level state: units are built concurrently)
+func splitConj(e Expr, cs *Contracts, depth int, curSplitPkg string) []Expr {
 	switch x := e.(type) {
 	case *EBinary:
 		if x.Op == "&&" {
-			return append(splitConj(x.X, cs, depth), splitConj(x.Y, cs, depth)...)
+			return append(splitConj(x.X, cs, depth, curSplitPkg), splitConj(x.Y, cs, depth, curSplitPkg)...)
 		}
 	case *ECall:
 		if sf, ok := cs.Specs[x.Fn]; ok && depth < 4 && len(sf.Params) == len(x.Args) && sf.PkgPath == curSplitPkg {
@@ -578,7 +576,7 @@ func splitConj(e Expr, cs *Contracts, depth int) []Expr {
 				}
 				if simple {
 					var out []Expr
-					for _, c := range splitConj(sf.Body, cs, depth+1) {
+					for _, c := range splitConj(sf.Body, cs, depth+1, curSplitPkg) {
 						out = append(out, substExpr(c, m))
 					}
 					return out
